@@ -141,7 +141,8 @@ class RelocFilter:
         self.trials += 1
         try:
             rel = self.map[typ](None, offset=offset, addend=addend)
-            res = rel.apply(sym_value, bytes(data), reloc_value)
+            # the linker resolves a relocation against S + A
+            res = rel.apply(sym_value + addend, bytes(data), reloc_value)
             return res is not None and len(res) == len(data)
         except Exception:
             return False
